@@ -36,7 +36,8 @@ CHECKS = {
              'cryptographic check is called and decides, delegation only to the named subkey; check_management / check_soundness / '
              'check_primitives and validate_params: an expired, invalid, disabled or self-signature-less key always reports that condition, '
              'advisory weaknesses only add bits; a second call on the same key object is judged by the conditions at that call. Bounded: the verdict '
-             'along the history of one key object.',
+             'along the history of one key object. When a key / a signature counts as expired (expires_at, is_expired; time as integer instants). '
+             'PGPKey.self_verified, stated from the property, is REFUTED on the pinned tree: it is a stub that answers OK (known finding D41).',
         note=TB + '; the aggregate methods are element-wise filters proved for list lengths 0..3, not by induction',
         technique='contract-based deductive verification: VCs from the Python AST, callee contracts as hooks, z3/cvc5',
         design_ref='6 (C17)'),
